@@ -30,7 +30,7 @@ class InProc:
             r = z3.RealVal(str(t.val)) if not self.ints else (
                 z3.IntVal(int(t.val)) if t.val.denominator == 1 else z3.RealVal(str(t.val)))
         elif op == 'v':
-            r = z3.Int('v_' + t.val) if t.val in self.ints else z3.Real('v_' + t.val)
+            r = z3.Int('v_' + t.val) if (t.val in self.ints or t.val.startswith('__tr')) else z3.Real('v_' + t.val)
         elif op in tm.ATOM_OPS:
             r = z3.Real(tm._vname(t))
         elif op == 'sum':
